@@ -26,6 +26,7 @@ func init() {
 func runC16(c *Ctx) {
 	p := c.P
 	s := p.Selectors()
+	s.checkErrorsNotSwallowed(c, "errors-not-swallowed", inPkgs("loader", "templater"), "a failing load or render step would yield a partly processed project")
 	lp := p.loadPipeline()
 	c.Touch(lp.Load)
 
